@@ -387,7 +387,9 @@ func (env *Env) Run(c *Case) *Result {
 		res.WriteFailed = true
 	}
 	colorBuf.mu.Unlock()
+	rd.mu.Lock()
 	res.ReadBytes = rd.read
+	rd.mu.Unlock()
 	vmu.Lock()
 	res.Visits = visits
 	vmu.Unlock()
